@@ -703,6 +703,7 @@ def match_known(known, prop, job, o):
 
 
 def check(prop, tier, only_jobs=None, keep=False):
+    write_evidence.only_jobs = only_jobs
     t0 = time.time()
     seed = int(os.environ.get("VERIF_SEED", "0") or 0)
     workdir = os.path.join(WORK, "%s-%d" % (prop, os.getpid()))
@@ -971,8 +972,12 @@ def write_evidence(prop, tier, seed, results, jobs, units, violations, known_hit
     }
     ev = {"property_id": prop, "tier": tier, "seed": seed, "level": level, "coverage": cov, "assumptions": assumptions,
           "wall_s": round(wall, 1), "violations": len(violations)}
-    os.makedirs(os.path.join(VERIF, "evidence"), exist_ok=True)
-    json.dump(ev, open(os.path.join(VERIF, "evidence", prop + ".json"), "w"), indent=1)
+    # partial / development runs (job filters, scratch repositories, seeded-change tests) must not overwrite the
+    # committed evidence of the full check
+    partial = bool(os.environ.get("VT_JOB_FILTER") or os.environ.get("VT_SCRATCH_EVIDENCE") or os.environ.get("VT_REPO") or getattr(write_evidence, "only_jobs", None))
+    edir = os.path.join(WORK, "evidence-partial") if partial else os.path.join(VERIF, "evidence")
+    os.makedirs(edir, exist_ok=True)
+    json.dump(ev, open(os.path.join(edir, prop + ".json"), "w"), indent=1)
 
 
 def main():
